@@ -128,6 +128,11 @@ def derive(rng, g: Grammar, e, depth=0):
         return derive(rng, g, rng.choice(e.opts), d)
     if isinstance(e, (Group, SkipGroup, Named, NamedList, Over, OverList)):
         return derive(rng, g, e.e, d)
+    if type(e).__name__ == 'Include':
+        try:
+            return derive(rng, g, g.rule(e.name).body, d)
+        except KeyError:
+            return ''
     if isinstance(e, Opt):
         return derive(rng, g, e.e, d) if rng.random() < 0.6 else ''
     if isinstance(e, (Clo, PClo)):
